@@ -23,10 +23,15 @@ C13 — line-protocol driver of the drop model (core only).
   parts                                        → parts <part>|<part>…   (index parts: entries ascending, parts by first entry; ~ being merged, * purge mark)
   ddisk                                        → ddisk <entry,entry…>   (tsids in the parts of the deleted-tsid table)
 entry: <kid>.<n> = the n-th tsid ever issued for series key kid; part: entry,entry….
+engine histories (OG.C13.Store):
+  eopen <i> | emk <db> <rp> <shard> <index> | ewrite <shard> <mst> <series> <t> <v> | eflush |
+  edropmst <db> <mst> <shard,shard> | edroprp <db> <rp> | edropdb <db> | erestart <shard,shard|->   → ok
+  edump <shard> <mst> → rows s:t:v|… | notloaded;  eloaded → loaded db/rp/index|shard/id,…;  etree → tree data|wal/db[/rp/index|shard/id],…
 pred: RPN over `;` — `-` (none), eq:k:v, neq:k:v, re:k:a+b, nre:k:a+b, and, or.
 -/
 import OG.C13.Model
 import OG.C13.Catalog
+import OG.C13.Store
 
 namespace OG.C13
 open OG.C02
@@ -35,6 +40,7 @@ structure DSt where
   st : St
   keys : List (Nat × String × Tags)
   cat : Cat
+  store : Store.St := Store.St.init
 
 def DSt.univ (d : DSt) : Univ where
   mst := fun k => match d.keys.lookup k with
@@ -179,6 +185,54 @@ def catStep (c : Cat) : List String → Cat × String
   | ["msts"] => (c, "msts " ++ String.intercalate "," (c.measurements.foldr insertStr []))
   | _ => (c, "bad-op")
 
+/-! ### the engine histories (`OG.C13.Store`) -/
+
+def parseNatList (s : String) : Option (List Nat) :=
+  if s == "-" then some [] else (s.splitOn ",").mapM (·.toNat?)
+
+def insertS (x : String) : List String → List String
+  | [] => [x]
+  | y :: ys => if x < y then x :: y :: ys else if x == y then y :: ys else y :: insertS x ys
+
+def storeStep (d : DSt) : List String → Option (DSt × String)
+  | ["eopen", _] => some ({ d with store := Store.St.init }, "ok")
+  | ["emk", db, rp, id, ix] =>
+    match id.toNat?, ix.toNat? with
+    | some i, some x => some ({ d with store := d.store.mkShard db rp i x }, "ok")
+    | _, _ => some (d, "bad-op")
+  | ["ewrite", id, mst, s, t, v] =>
+    match id.toNat?, s.toNat?, t.toInt? with
+    | some i, some s', some t' =>
+      match d.store.write i ⟨mst, s', t', v⟩ with
+      | some st' => some ({ d with store := st' }, "ok")
+      | none => some (d, "err shard-notfound")
+    | _, _, _ => some (d, "bad-op")
+  | ["eflush"] => some (d, "ok")
+  | ["edropmst", db, mst, ids] =>
+    match parseNatList ids with
+    | some l => some ({ d with store := d.store.dropMst db mst l }, "ok")
+    | none => some (d, "bad-op")
+  | ["edroprp", db, rp] => some ({ d with store := d.store.dropRp db rp }, "ok")
+  | ["edropdb", db] => some ({ d with store := d.store.dropDb db }, "ok")
+  | ["erestart", ids] =>
+    match parseNatList ids with
+    | some l => some ({ d with store := d.store.restart l }, "ok")
+    | none => some (d, "bad-op")
+  | ["edump", id, mst] =>
+    match id.toNat? with
+    | some i =>
+      match d.store.dump i mst with
+      | some rows => some (d, "rows " ++ String.intercalate "|" (rows.map fun r => toString r.s ++ ":" ++ toString r.t ++ ":" ++ r.v))
+      | none => some (d, "notloaded")
+    | none => some (d, "bad-op")
+  | ["eloaded"] =>
+    some (d, "loaded " ++ String.intercalate "," ((d.store.loaded.map fun (db, rp, k, i) =>
+      db ++ "/" ++ rp ++ "/" ++ k ++ "/" ++ toString i).foldr insertS []))
+  | ["etree"] =>
+    some (d, "tree " ++ String.intercalate "," ((d.store.tree.map fun (root, db, rp, k, i) =>
+      if rp == "" then root ++ "/" ++ db else root ++ "/" ++ db ++ "/" ++ rp ++ "/" ++ k ++ "/" ++ toString i).foldr insertS []))
+  | _ => none
+
 def mergeStep (d : DSt) (whole : Bool) (es : String) : DSt × String :=
   let st := d.st
   if st.idx.parts.any (·.inMerge) then (d, "bad-op") else
@@ -192,8 +246,12 @@ def mergeStep (d : DSt) (whole : Bool) (es : String) : DSt × String :=
 def step (d : DSt) (line : String) : DSt × String :=
   let U := d.univ
   let st := d.st
-  match (line.trimAscii.toString.splitOn " ").filter (· ≠ "") with
-  | ["open", _] => (⟨St.init 1, [], Cat.init⟩, "ok")
+  let toks := (line.trimAscii.toString.splitOn " ").filter (· ≠ "")
+  match storeStep d toks with
+  | some r => r
+  | none =>
+  match toks with
+  | ["open", _] => (⟨St.init 1, [], Cat.init, d.store⟩, "ok")
   | ["parts", n] =>
     match n.toNat? with
     | some k => if k = 0 then (d, "bad-op") else ({ d with st := { st with lay := { st.lay with nParts := k } } }, "ok")
@@ -278,6 +336,6 @@ partial def loop (h : IO.FS.Stream) (out : IO.FS.Stream) (d : DSt) : IO Unit := 
   loop h out d'
 
 def main : IO Unit := do
-  loop (← IO.getStdin) (← IO.getStdout) ⟨St.init 1, [], Cat.init⟩
+  loop (← IO.getStdin) (← IO.getStdout) ⟨St.init 1, [], Cat.init, Store.St.init⟩
 
 end OG.C13
